@@ -404,7 +404,7 @@ func init() {
 	}
 	core.Register(&core.Check{
 		ID: "C18",
-		Rule: "single-operation sweep: every element of the hand-sized Patient, Observation, Questionnaire and of a slice of the schema-covering resource family (quick: 24 types x 1 instance at depth 2; thorough: all 146 types x 2 instances) is the target of Delete and Replace in every spelling {indexed path, first(), last(), where(true), take/skip, extension(url)}, every repeated element the target of Insert at every index in [-1, len+1], every element name of every visited message the target of Add; values: same type (different content), sibling types (string/code for a bound code incl. invalid codes, integer for positiveInt/unsignedInt incl. negative, code/markdown for string), wrong types (primitive/complex/boolean) and nil; nil resource; both the package-level and the compiled entry points; Move. Oracle: on success the resource equals the structural reference model of the operation applied to a copy (compared as protos, else as jsonformat JSON); on error the resource and the value are unchanged (proto equality, deterministic bytes and presence fingerprint); deleting an absent element returns nil without change; Move returns ErrNotImplemented. Operation histories: explicit-state BFS from the hand-sized Patient over an alphabet of 16 operations (with inverses) to depth 3 (quick) / 4 (thorough): every transition is compared with the model's transition, states are de-duplicated by canonical bytes, successors are built by replaying the shortest path on a fresh copy; non-trivial = distinct (resource, operation, target, value class, outcome)",
+		Rule: "single-operation sweep: every element of the hand-sized Patient, Observation, Questionnaire and of a slice of the schema-covering resource family (quick: 24 types x 1 instance at depth 2; thorough: all 146 types x 2 instances) is the target of Delete and Replace in every spelling {indexed path, first(), last(), where(true), take/skip, extension(url)}, every repeated element the target of Insert at every index in [-1, len+1], every element name of every visited message the target of Add; values: same type (different content), sibling types (string/code for a bound code incl. invalid codes, integer for positiveInt/unsignedInt incl. negative, code/markdown for string), wrong types (primitive/complex/boolean) and nil; nil resource; both the package-level and the compiled entry points; Move. Oracle: on success the resource equals the structural reference model of the operation applied to a copy (compared as protos, else as jsonformat JSON); on error the resource and the value are unchanged (proto equality, deterministic bytes and presence fingerprint); deleting an absent element returns nil without change; Move returns ErrNotImplemented. Operation histories: explicit-state BFS from the hand-sized Patient over an alphabet of 18 operations (with inverses) to depth 3 (quick) / 4 (thorough): every transition is compared with the model's transition, states are de-duplicated by canonical bytes, successors are built by replaying the shortest path on a fresh copy; non-trivial = distinct (resource, operation, target, value class, outcome)",
 		Assumptions: []string{"the reference model applies the operation by schema position on a protobuf copy; C02 establishes that schema positions and the jsonformat tree are aligned", "elements inside contained / bundled resources are not targeted"},
 		Subs: func(tier string) []core.Sub {
 			cases := []resCase{
@@ -988,6 +988,33 @@ func c18Ops() []c18Op {
 				return true
 			}},
 		{"delete gender", func(r fhir.Resource) error { return patch.Delete(r, "Patient.gender") }, func(m protoreflect.Message) bool { m.Clear(find(m, "gender")); return true }},
+		// a code given as string is converted into a fresh code element: nothing of an earlier conversion may come back with it
+		{"replace gender by 'male' (string)", func(r fhir.Resource) error { return patch.Replace(r, "Patient.gender", fhir.String("male")) },
+			func(m protoreflect.Message) bool {
+				f := find(m, "gender")
+				if !m.Has(f) {
+					return false
+				}
+				g := m.NewField(f).Message()
+				vf := g.Descriptor().Fields().ByName("value")
+				g.Set(vf, protoreflect.ValueOfEnum(vf.Enum().Values().ByName("MALE").Number()))
+				m.Set(f, protoreflect.ValueOfMessage(g))
+				return true
+			}},
+		{"add id g1 to gender", func(r fhir.Resource) error { return patch.Add(r, "Patient.gender", "id", fhir.String("g1"), &patch.Options{}) },
+			func(m protoreflect.Message) bool {
+				f := find(m, "gender")
+				if !m.Has(f) {
+					return false
+				}
+				g := m.Mutable(f).Message()
+				idf := g.Descriptor().Fields().ByName("id")
+				if g.Has(idf) {
+					return false
+				}
+				g.Set(idf, protoreflect.ValueOfMessage(fhir.String("g1").ProtoReflect()))
+				return true
+			}},
 	}
 }
 
